@@ -1,0 +1,12 @@
+//go:build verif
+
+package head
+
+import "bytes"
+
+// verifRoundTrip is a lemma harness for /verif (gvc): its contract states that
+// decoding an encoded "head" table gives back the encoded values.  It is
+// compiled only with the "verif" build tag and never called.
+func verifRoundTrip(info *Info) (*Info, error) {
+	return Read(bytes.NewReader(info.Encode()))
+}
